@@ -176,6 +176,8 @@ def for_loop(e):
     if not (isinstance(e, dict) and e.get("k") == "match" and e.get("src") == "ForLoopDesugar"):
         return None
     it = e["scrut"]
+    if is_call(it, "Iterator::next"):
+        return None  # the inner half of the desugaring
     if not is_call(it, "IntoIterator::into_iter"):
         raise Unrecognised("for-loop desugaring without into_iter")
     iter_expr = it["args"][0]
@@ -468,3 +470,152 @@ def same_place(a, b):
 
 def frames_have(frames, test):
     return any(test(f) for f in frames)
+
+
+# ---------------------------------------------------------------------------------------------
+# loop-free path enumeration (closures / small functions)
+
+class Path:
+    """One structural path: trace = ordered list of items
+       ('cond', expr, bool) | ('arm', scrut, pat, prior_pats) | ('let', pat, init) | ('assign', node) |
+       ('eval', expr)  (expression evaluated for effect);  value = result expression or None; exit = 'value'|'ret'|'break'|'continue'|'diverge'
+    """
+
+    def __init__(self, trace=None, value=None, exit="value"):
+        self.trace = trace or []
+        self.value = value
+        self.exit = exit
+
+    def conds(self):
+        return [t for t in self.trace if t[0] in ("cond", "arm")]
+
+
+def enumerate_paths(e, limit=4096):
+    """All structural paths through a loop-free expression. Raises Unrecognised on loops."""
+    res = _paths(e)
+    if len(res) > limit:
+        raise Unrecognised("too many paths")
+    return res
+
+
+def _seq(prefixes, e):
+    out = []
+    for p in prefixes:
+        if p.exit != "value":
+            out.append(p)
+            continue
+        for q in _paths(e):
+            out.append(Path(p.trace + q.trace, q.value, q.exit))
+    return out
+
+
+def _paths(e):
+    e = simp(e)
+    if not isinstance(e, dict):
+        return [Path()]
+    k = e.get("k")
+    if k == "block":
+        cur = [Path()]
+        for s in e.get("stmts", []):
+            cur = _seq(cur, s)
+            # the value of a statement is discarded
+            cur = [Path(p.trace, None, p.exit) for p in cur]
+        if "expr" in e:
+            cur = _seq(cur, e["expr"])
+        return cur
+    if k == "let":
+        if "els" in e:
+            raise Unrecognised("let-else in path enumeration")
+        if "init" not in e:
+            return [Path()]
+        out = []
+        for p in _paths(e["init"]):
+            if p.exit != "value":
+                out.append(p)
+            else:
+                out.append(Path(p.trace + [("let", e["pat"], p.value if p.value is not None else e["init"])], None, "value"))
+        return out
+    if k == "if":
+        out = []
+        for val, br in ((True, e["t"]), (False, e.get("e"))):
+            frames = _cond_frames(e["c"], val)
+            # a disjunction that is true / conjunction that is false stays one compound literal
+            pre = [("cond", f["expr"], f["val"]) for f in frames]
+            if br is None:
+                out.append(Path(pre, None, "value"))
+            else:
+                for q in _paths(br):
+                    out.append(Path(pre + q.trace, q.value, q.exit))
+        return out
+    if k == "match":
+        if e.get("src") == "ForLoopDesugar":
+            raise Unrecognised("loop in path enumeration")
+        out = []
+        prior = []
+        for a in e["arms"]:
+            pre = [("arm", e["scrut"], a["pat"], list(prior))]
+            if "guard" in a:
+                pre += [("cond", f["expr"], f["val"]) for f in _cond_frames(a["guard"], True)]
+            else:
+                prior.append(a["pat"])
+            for q in _paths(a["body"]):
+                out.append(Path(pre + q.trace, q.value, q.exit))
+        return out
+    if k == "loop":
+        raise Unrecognised("loop in path enumeration")
+    if k == "ret":
+        if "e" in e:
+            out = []
+            for p in _paths(e["e"]):
+                out.append(Path(p.trace, p.value, "ret" if p.exit == "value" else p.exit))
+            return out
+        return [Path([], None, "ret")]
+    if k == "break":
+        return [Path([], e.get("e"), "break")]
+    if k == "continue":
+        return [Path([], None, "continue")]
+    if k == "assign" or k == "assignop":
+        return [Path([("assign", e)], None, "value")]
+    if k == "call":
+        if e.get("ty") == "!":
+            return [Path([("eval", e)], None, "diverge")]
+        return [Path([("eval", e)], e, "value")]
+    # pure expression: value
+    return [Path([], e, "value")]
+
+
+# ---------------------------------------------------------------------------------------------
+# boolean expressions over opaque atoms
+
+def bool_eval(e, atom_value):
+    """Evaluate a boolean expression; atom_value(node) -> bool | None for leaves (None = unknown atom → raises)."""
+    e = simp(e)
+    k = e.get("k")
+    if k == "lit" and e.get("t") == "bool":
+        return e["v"]
+    if k == "un" and e.get("op") == "Not" and "callee" not in e:
+        return not bool_eval(e["e"], atom_value)
+    if k == "bin" and e.get("op") in ("And", "Or") and "callee" not in e:
+        l = bool_eval(e["l"], atom_value)
+        if e["op"] == "And":
+            return l and bool_eval(e["r"], atom_value)
+        return l or bool_eval(e["r"], atom_value)
+    v = atom_value(e)
+    if v is None:
+        raise Unrecognised(f"boolean atom not understood: {e.get('k')}")
+    return v
+
+
+def bool_atoms(e, out=None):
+    out = [] if out is None else out
+    e = simp(e)
+    k = e.get("k")
+    if k == "lit" and e.get("t") == "bool":
+        return out
+    if k == "un" and e.get("op") == "Not" and "callee" not in e:
+        return bool_atoms(e["e"], out)
+    if k == "bin" and e.get("op") in ("And", "Or") and "callee" not in e:
+        bool_atoms(e["l"], out)
+        return bool_atoms(e["r"], out)
+    out.append(e)
+    return out
